@@ -267,14 +267,25 @@ pub fn run(ctx: &mut Ctx) {
         ctx.begin_case(case);
         let mut rng = ctx.rng(case);
         let mut s = Session::new();
-        s.must("CREATE TABLE t (id INTEGER PRIMARY KEY, a INTEGER, b INTEGER)");
+        // one case in three carries a bounded text column outside the model; the values written
+        // to it are sometimes longer than it can hold
+        let text_col = rng.chance(1, 3);
+        s.must(if text_col { "CREATE TABLE t (id INTEGER PRIMARY KEY, a INTEGER, b INTEGER, s VARCHAR(4))" } else { "CREATE TABLE t (id INTEGER PRIMARY KEY, a INTEGER, b INTEGER)" });
+        let text_val = |rng: &mut Rng| -> String {
+            if !text_col {
+                String::new()
+            } else {
+                format!(", '{}'", rng.pick(&["", "ab", "abcd", "abcde", "abcdefghij"]))
+            }
+        };
         s.must("CREATE TABLE audit (tag VARCHAR(20), oid INTEGER, oa INTEGER, ob INTEGER, nid INTEGER, na INTEGER, nb INTEGER)");
         let mut t: Vec<Row> = vec![];
         let mut next_id = 0i64;
         for _ in 0..rng.range(0, 6) {
             next_id += 1;
             let r: Row = [Some(next_id), if rng.chance(1, 8) { None } else { Some(rng.range(0, 5)) }, Some(rng.range(0, 5))];
-            s.must(&format!("INSERT INTO t SELECT {}, {}, {}", lit(r[0]), lit(r[1]), lit(r[2])));
+            let tv = text_val(&mut rng);
+            s.must(&format!("INSERT INTO t SELECT {}, {}, {}{}", lit(r[0]), lit(r[1]), lit(r[2]), tv));
             t.push(r);
         }
         let ntr = rng.range(1, 4) as usize;
@@ -324,7 +335,7 @@ pub fn run(ctx: &mut Ctx) {
             };
             let (sql, shape) = match &d {
                 Dml::Insert(rows) => (
-                    format!("INSERT INTO t VALUES {}", rows.iter().map(|r| format!("({}, {}, {})", lit(r[0]), lit(r[1]), lit(r[2]))).collect::<Vec<_>>().join(", ")),
+                    format!("INSERT INTO t VALUES {}", rows.iter().map(|r| format!("({}, {}, {}{})", lit(r[0]), lit(r[1]), lit(r[2]), text_val(&mut rng))).collect::<Vec<_>>().join(", ")),
                     if rows.len() > 1 { "insert-multi".to_string() } else { "insert".to_string() },
                 ),
                 Dml::Update { col, add, k, p } => {
@@ -382,7 +393,11 @@ pub fn run(ctx: &mut Ctx) {
                     break;
                 }
                 if now != before_sorted {
-                    fail(ctx, &s, format!("failing-trigger-left-changes:{}-{}", which.split('-').next().unwrap(), shape.split('-').next().unwrap()), json!({"before": format!("{:?}", before_sorted), "after": format!("{:?}", now)}));
+                    // (a one-row statement has no earlier rows to be left behind: what stays after
+                    // a failing row trigger is the very row whose trigger failed)
+                    let row_level = trigs.iter().find(|tr| tr.failing).map_or(false, |tr| tr.row_level);
+                    let single = if shape == "insert" && row_level { "-single-row" } else { "" };
+                    fail(ctx, &s, format!("failing-trigger-left-changes:{}-{}{}", which.split('-').next().unwrap(), shape.split('-').next().unwrap(), single), json!({"before": format!("{:?}", before_sorted), "after": format!("{:?}", now)}));
                     break;
                 }
                 ctx.nontrivial(format!("failing|{}|{}", which, shape));
